@@ -48,6 +48,13 @@ def run_case(case, ctx):
     if gradient:
         m = 1
     A = rng.normal(size=(m, n)) * 10.0 ** rng.uniform(-1, 1)
+    if case['family'] == 'affine' and case['seed'] % 5 == 2:
+        # magnitude classes of the derivative itself: the whole map, or one column of it, in units of 1e-6..1e-13
+        if case['seed'] % 2:
+            A = A * 10.0 ** rng.uniform(-13, -6)
+        else:
+            A[:, int(rng.integers(0, n))] *= 10.0 ** rng.uniform(-13, -6)
+        ctx.count('tiny_derivative_cases')
     B = rng.normal(size=(m, n)) * 0.3
     b = rng.normal(size=m)
     x = rng.uniform(-2, 2, size=n)
@@ -208,6 +215,17 @@ def run_case(case, ctx):
         rnd = 0.0 if method == 'complex' else EPS * fmag / (case['step'] * max(float(np.min(np.abs(x))), 1e-300))
         tol = max(tol, 10 * (trunc + rnd))
     err = float(np.max(np.abs(Jm - Jexact)))
+    if case['family'] == 'affine' and method == 'complex' and case['bounds'] == 'none':
+        # the complex step carries each entry in an imaginary part of its own: exact to rounding entry by entry, not just
+        # relative to the largest entry (the value b + A x takes no part in it)
+        ctx.count('complex_affine_entries_asserted_relative_to_themselves', m * n)
+        rel = np.abs(Jm - Jexact) - 64 * EPS * np.abs(Jexact)
+        if np.any(rel > 0):
+            ij = np.unravel_index(int(np.argmax(rel)), rel.shape)
+            ctx.reject('jacobian_entries', observed=Jm, expected=Jexact, detail=dict(err=float(np.abs(Jm - Jexact)[ij]), entry=[int(v) for v in ij],
+                                                                                      tol=float(64 * EPS * abs(Jexact[ij])), entrywise=True),
+                       method=method, family=case['family'])
+            return
     ctx.count('jacobian_entries_asserted', m * n)
     ctx.maximum('err/tol:%s:%s' % (case['family'], method), err / tol, dict(case=case))
     if not err <= tol:
